@@ -40,7 +40,7 @@ func init() {
 			"(WITH c AS (Qi) Qo(c); Qo((Qi) x); chains c1->c2->outer; a CTE referenced twice through a self-join, through FROM plus an " +
 			"IN-subquery, through a filtering CTE plus a join, or through a filtered FROM plus an aggregating subquery; FROM `c.items` on an array-valued CTE column) that must equal the staged evaluation over materialised intermediate " +
 			"results passed in as plain input, or a subquery form (select-item subquery on the row / on `<-` the enclosing document, also correlated with the outer row through `<-.col`; IN-subquery on the row and on the root, " +
-			"[NOT] EXISTS correlated with the outer row) that must equal the standalone execution of the subquery text on that row (EXISTS: the " +
+			"[NOT] EXISTS correlated with the outer row over nested arrays whose elements may lack keys; IN subqueries also with ORDER BY / LIMIT / OFFSET and in the plain one-column form; CTE names that shadow a table of the document) that must equal the standalone execution of the subquery text on that row (EXISTS: the " +
 			"reference 'some element satisfies p'). Non-trivial: inner result non-empty and the outer stage filters or projects it.",
 		Assumptions: []string{
 			"outer and nested column names are disjoint in EXISTS; derived tables are always aliased",
